@@ -4,7 +4,8 @@ set -eu
 ROOT="$(cd "$(dirname "$0")" && pwd)"
 export GOFLAGS=-mod=mod GOPROXY=off GOSUMDB=off GOTOOLCHAIN=local
 cd "$ROOT/harness"
-cat /repo/go.sum go.sum.extra 2>/dev/null | sort -u > go.sum
+cat /repo/go.sum go.sum.extra 2>/dev/null | sort -u > "go.sum.tmp.$$"
+cmp -s "go.sum.tmp.$$" go.sum && rm -f "go.sum.tmp.$$" || mv -f "go.sum.tmp.$$" go.sum
 mkdir -p "$ROOT/bin" "$ROOT/evidence" "$ROOT/replays"
 go test -tags verif -c -o "$ROOT/bin/checks.setup.test" ./checks/
 rm -f "$ROOT/bin/checks.setup.test"
